@@ -555,6 +555,20 @@ func recDatums(order int) []ref.Datum {
 			ref.DMap([]string{tag + "n"}, []ref.Datum{ref.DRecord(ref.DString(tag + "mapped-inner"))}), ref.DUnion(1, ref.DLong(int64(1000+i))), ref.DUnion(1, ref.DRecord(ref.DString(tag+"inner"))))
 	}
 	empty := ref.DRecord(ref.DString(""), ref.DBytes(""), ref.DArray(), ref.DMap(nil, nil), ref.DMap(nil, nil), ref.DMap(nil, nil), ref.DUnion(0, ref.DNull()), ref.DUnion(0, ref.DNull()))
+	if order == 2 {
+		// the same strings again and again: the LAST string a record decodes (the nested record's) equals the FIRST
+		// one the next record decodes, and keys and items repeat from record to record
+		same := func(i int, rep string) ref.Datum {
+			return ref.DRecord(ref.DString(rep), ref.DBytes(rep), ref.DArray(ref.DString(rep), ref.DString(rep)),
+				ref.DMap([]string{rep}, []ref.Datum{ref.DString(rep)}),
+				ref.DMap([]string{rep}, []ref.Datum{ref.DLong(int64(2000 + i))}),
+				ref.DMap([]string{rep}, []ref.Datum{ref.DRecord(ref.DString(rep))}), ref.DUnion(1, ref.DLong(int64(1000+i))), ref.DUnion(1, ref.DRecord(ref.DString(rep))))
+		}
+		// two records repeating one string, then two repeating another of the same length (a recycled bank is
+		// refilled with different bytes at the same offsets)
+		const repA, repB = "the-same-string-in-every-record", "ANOTHER-STRING-OF-THE-SAME-SIZE"
+		return []ref.Datum{same(0, repA), same(1, repA), same(2, repB), same(3, repB)}
+	}
 	if order == 1 {
 		// the empty record second: the third record is decoded into whatever bank the first one gave back
 		return []ref.Datum{full(0), empty, full(2), full(3)}
@@ -781,7 +795,7 @@ func tasks(tier string) []task {
 	for _, codec := range []string{"null", "deflate", "snappy"} {
 		for _, comp := range [][]int{{2, 1, 1}, {1, 1, 2}, {4}, {1, 3}} {
 			for mode := 0; mode < 2; mode++ {
-				for order := 0; order < 2; order++ {
+				for order := 0; order < 3; order++ {
 					codec, comp, mode, order := codec, comp, mode, order
 					ts = append(ts, task{fmt.Sprintf("file %s %v %s order %d", codec, comp, filedrv.ModeName(mode), order), func(c *fw.Ctx) { runE2(c, codec, comp, mode, poolBound, order) }})
 				}
@@ -805,7 +819,7 @@ func init() {
 			if tier == "thorough" {
 				depth, banks, pb = 7, 3, 3
 			}
-			return fmt.Sprintf("built with the sync→zzvsync overlay so that sync.Pool recycling is an explored choice. (E1) explicit-state BFS over sequences (depth %d) of real ResourceBank/ReadBuf operations {alloc(int64), alloc(struct with pointer and string), 17×alloc (arena growth), ToString/NextAsString of 2 and 300 bytes (string store regrowth), Close(bank i), ExtractResourceBank with Pool.Get answer ∈ {new, each of the 2 most recently pooled banks}, recycle (the ReadBuf's bank goes through Close and the pool and comes back)} over the ReadBuf's bank and <=%d extracted banks; successor = replay on a fresh world + one operation; canonical state = per physical bank (role, fill levels, high-water classes) and pool order; shadow-heap model: after EVERY step a new allocation must be all-zero and disjoint (address ranges) from every live allocation and string of every open bank, and every live allocation and string must still hold its pattern. (E2) ReadFile over 4-record files (strings, bytes, slices, maps of strings / longs / records, pointers to long and to a record — map values and pointer targets of the same types; an all-empty record as third or as second of the four) × 3 codecs × 4 block partitions × 2 reader modes, with the callback's retention policy (keep / close own bank / close the bank of any earlier open record) explored exhaustively and Pool.Get answers with <=%d deviations: every retained shallow copy whose bank is open must equal the deep copy taken at delivery, at every later callback, at the end, and again after a second ReadFile (whose banks are closed at once) has run; (E3) what delivered time.Time values SHOW (zone name, offset, String, Format) for RFC 3339 strings with five unusual offsets in five blocks must be unchanged after the rest of the file has been read; distinct_nontrivial = distinct histories / choice vectors checked", depth, banks, pb)
+			return fmt.Sprintf("built with the sync→zzvsync overlay so that sync.Pool recycling is an explored choice. (E1) explicit-state BFS over sequences (depth %d) of real ResourceBank/ReadBuf operations {alloc(int64), alloc(struct with pointer and string), 17×alloc (arena growth), ToString/NextAsString of 2 and 300 bytes (string store regrowth), Close(bank i), ExtractResourceBank with Pool.Get answer ∈ {new, each of the 2 most recently pooled banks}, recycle (the ReadBuf's bank goes through Close and the pool and comes back)} over the ReadBuf's bank and <=%d extracted banks; successor = replay on a fresh world + one operation; canonical state = per physical bank (role, fill levels, high-water classes) and pool order; shadow-heap model: after EVERY step a new allocation must be all-zero and disjoint (address ranges) from every live allocation and string of every open bank, and every live allocation and string must still hold its pattern. (E2) ReadFile over 4-record files (strings, bytes, slices, maps of strings / longs / records, pointers to long and to a record — map values and pointer targets of the same types; an all-empty record as third or as second of the four; or four records that repeat one string in every string position) × 3 codecs × 4 block partitions × 2 reader modes, with the callback's retention policy (keep / close own bank / close the bank of any earlier open record) explored exhaustively and Pool.Get answers with <=%d deviations: every retained shallow copy whose bank is open must equal the deep copy taken at delivery, at every later callback, at the end, and again after a second ReadFile (whose banks are closed at once) has run; (E3) what delivered time.Time values SHOW (zone name, offset, String, Format) for RFC 3339 strings with five unusual offsets in five blocks must be unchanged after the rest of the file has been read; distinct_nontrivial = distinct histories / choice vectors checked", depth, banks, pb)
 		},
 		Assumptions: []string{
 			"double Close of one bank and use after Close are API misuse and excluded from the alphabet",
